@@ -74,6 +74,15 @@ let dispatch (fn : string) : jv -> jv = match fn with
   | "spnego_serve" -> serve_j
   | "http_do" -> http_do_j
   | "asrep_verify" -> asrep_verify_j
+  | "c16_parse" -> c16_parse_j
+  | "c16_resolve" -> c16_resolve_j
+  | "c16_bool" -> c16_bool_j
+  | "c16_dur" -> c16_dur_j
+  | "c16_etypes" -> c16_etypes_j
+  | "c16_auf" -> c16_auf_j
+  | "c16_rso" -> c16_rso_j
+  | "c16_getkdcs" -> c16_getkdcs_j
+  | "c16_getkpasswd" -> c16_getkpasswd_j
   | "client_run" -> client_run_j
   | "new_as_req" -> new_as_req_j
   | "referrals" -> referrals_j
